@@ -1,7 +1,8 @@
 (* C14 — property theorems about the journal model of C14/Model.v (on top of C12's update model).
    A journal is the list of its rows; a crash is any prefix; recovery replays the prefix from
    the empty zone.  [good_run] (JournalProofs.v) is the decidable guard "no message of the
-   history is in the classes C12-apex-delete-all / C12-soa-not-apex / serial at 2^32-1". *)
+   history adds an SOA whose owner is not the apex" (C12-soa-not-apex, open); the former guards
+   for apex delete-all and for the serial at 2^32-1 are gone with fixes 9a1aca9 and 118f816. *)
 From HV Require Import Lib.Base C12.Model C12.Spec C12.ZoneProofs C12.InvProofs C12.UpdProofs C12.WfDec
                        C14.Model C14.JournalProofs.
 Open Scope N_scope.
@@ -37,7 +38,7 @@ Print Assumptions C14_never_fails.
    to be the messages processed so far) recovers to exactly the zone the server held, hence
    with the serial it had answered with; no message of the history panicked *)
 Theorem C14_recover_at_boundary_guarded : forall ovf o init ms1,
-  dump_ok init -> WF o (build init) -> good_run ovf o (build init) ms1 = true ->
+  dump_ok init -> WF o (build init) -> good_run o ms1 = true ->
   recover o (journal ovf o init ms1) = Some (final ovf o (build init) ms1).
 Proof.
   intros ovf o init ms1 Hd W Hg. unfold recover, journal. cbn [replay].
@@ -61,7 +62,7 @@ Print Assumptions C14_boundary_is_prefix.
 (* further updates after recovery behave as if no restart had happened: same answers, same
    zones, same rows appended *)
 Theorem C14_continue_after_recovery_guarded : forall ovf o init ms1 ms2 z,
-  dump_ok init -> WF o (build init) -> good_run ovf o (build init) ms1 = true ->
+  dump_ok init -> WF o (build init) -> good_run o ms1 = true ->
   recover o (journal ovf o init ms1) = Some z ->
   run_j ovf o (build init) (ms1 ++ ms2) = run_j ovf o (build init) ms1 ++ run_j ovf o z ms2.
 Proof.
@@ -87,7 +88,7 @@ Definition m_ex : msg :=
    rows but before the post-update SOA row recovers the new content with the old serial *)
 Theorem C14_no_half_update_refuted :
   exists ovf o init m,
-    dump_ok init /\ WF o (build init) /\ good_run ovf o (build init) [m] = true /\
+    dump_ok init /\ WF o (build init) /\ good_run o [m] = true /\
     let before := build init in
     let after := final ovf o (build init) [m] in
     (* stop inside the rows of the message *)
@@ -123,26 +124,10 @@ Proof.
 Qed.
 Print Assumptions C14_initial_dump_refuted.
 
-(* C14-serial-wrap-replay (F6): in a build without overflow checks the increment at 2^32-1 wraps
-   to 0 and the SOA row with serial 0 is journalled; on replay RecordSet::insert compares with
-   plain `<=` and ignores it: the recovered serial 2^32-1 is LOWER (RFC 1982) than the serial 0
-   the server had answered with, although the stop was at a message boundary *)
-Theorem C14_serial_not_lower_refuted :
-  exists o init m z,
-    dump_ok init /\ WF o (build init) /\ Known_inv o m = false /\
-    snd (update false o (build init) m) = Rc NoError /\
-    recover o (journal false o init [m]) = Some z /\
-    serial_lt (serial o z) (serial o (final false o (build init) [m])) = true.
-Proof.
-  exists o_ex, (init_ex 4294967295), (mkMsg true [] [mkRR [3; 2; 1] cIN 60 tA (DGen 2)]). eexists.
-  split; [repeat constructor|]. split; [apply wfb_sound; vm_compute; reflexivity|].
-  split; [reflexivity|]. split; [vm_compute; reflexivity|]. split; vm_compute; reflexivity.
-Qed.
-Print Assumptions C14_serial_not_lower_refuted.
-
-(* outside that class the serial after recovery at a boundary is the serial answered with *)
+(* fix 118f816 (was C14_serial_not_lower_refuted): after recovery at a boundary the serial is the
+   serial the server had answered with, for every history, also across the wrap 2^32-1 -> 0 *)
 Theorem C14_serial_not_lower_guarded : forall ovf o init ms z,
-  dump_ok init -> WF o (build init) -> good_run ovf o (build init) ms = true ->
+  dump_ok init -> WF o (build init) -> good_run o ms = true ->
   recover o (journal ovf o init ms) = Some z ->
   serial o z = serial o (final ovf o (build init) ms).
 Proof.
@@ -151,6 +136,21 @@ Proof.
 Qed.
 Print Assumptions C14_serial_not_lower_guarded.
 
+(* the history that used to refute it: serial 2^32-1, one changing message; the server answers
+   with serial 0, journals the SOA row with serial 0, and recovery returns exactly that zone *)
+Theorem C14_serial_across_wrap :
+  let init := init_ex 4294967295 in
+  let m := mkMsg true [] [mkRR [3; 2; 1] cIN 60 tA (DGen 2)] in
+  forall ovf, snd (update ovf o_ex (build init) m) = Rc NoError /\
+    serial o_ex (final ovf o_ex (build init) [m]) = 0 /\
+    recover o_ex (journal ovf o_ex init [m]) = Some (final ovf o_ex (build init) [m]).
+Proof.
+  cbv zeta. intros ovf. split; [destruct ovf; vm_compute; reflexivity|].
+  split; [destruct ovf; vm_compute; reflexivity|].
+  apply C14_recover_at_boundary_guarded; [repeat constructor|apply wfb_sound; vm_compute; reflexivity|reflexivity].
+Qed.
+Print Assumptions C14_serial_across_wrap.
+
 (* ---------------------------------------------------------------------------------------- *)
 (* non-vacuity                                                                              *)
 (* ---------------------------------------------------------------------------------------- *)
@@ -158,7 +158,7 @@ Print Assumptions C14_serial_not_lower_guarded.
 Example C14_ex_guard :
   let ms := [m_ex; mkMsg true [mkRR [9; 2; 1] cANY 0 tANY DNone] [mkRR [3; 2; 1] cIN 60 tA (DGen 3)];
              mkMsg true [] [mkRR [3; 2; 1] cIN 60 16 (DGen 1)]] in
-  dump_ok (init_ex 10) /\ WF o_ex (build (init_ex 10)) /\ good_run true o_ex (build (init_ex 10)) ms = true /\
+  dump_ok (init_ex 10) /\ WF o_ex (build (init_ex 10)) /\ good_run o_ex ms = true /\
   length (journal true o_ex (init_ex 10) ms) = 9%nat /\
   map (fun x => snd (fst x)) (run_j true o_ex (build (init_ex 10)) ms) = [Rc NoError; Rc NXDomain; Rc NoError].
 Proof.
